@@ -20,9 +20,9 @@ const c12Fuel = 100000
 
 func init() {
 	register(&Prop{ID: "C12", Run: c12Run,
-		Rule: "action trees whose nodes carry subsets of {set, template, log, ext trace, abort} (each op tagged with its node's unique name), a condition from {none, \"true\", \"false\", {{ .flagT }}, {{ .flagF }}, \"\" (present but blank)} (random trees also: other boolean spellings, constant texts that are no boolean, blank and white-space-only texts — a non-nil pointer to \"\" / `when: \"\"`, `when: \"  \"` — at any depth, a flag written by ANOTHER action's set, which is a missing-field error when that action has not run, and the text ANOTHER action's template operation stores) and distinct sibling orders (children listed in shuffled order). Template operations of random trees render a non-boolean text, a boolean, or PARSE AND FAIL WHILE EXECUTING after having produced output (field of a scalar, index of a missing key, undefined associated template, sprig's fail): the failing operation stops the run and the final data of the failed run are compared like any other. 'enum' cases: the scope root(16 op subsets of size<=2 x 6 conditions) x 0..2 children (6 op subsets of size<=1 x 6 conditions each) — sampled in the quick tier, exhaustive in the thorough tier; 'tree' cases: random trees, depth<=5, fan-out<=4 (thorough: depth 3 trees drawn from the full per-node alphabet in addition). 'seq' cases: 2..3 actions executed one after the other by ONE executor on one data document (every call is made): each call must equal the reference on the data the earlier calls — failed ones included — left behind; later actions have conditions and templates that read the path an earlier template operation wrote to (first the minimal sequences: every kind of template text x top level / two levels down, then random ones). 'mixed' cases: nodes carrying subsets of ALL operation kinds the program form knows (also call, define, forEach, loop) on the same node — every pair of kinds on one node, then random trees; 'allops' cases (no model): one action carrying a subset of all sixteen OpSpec fields (patch, import, templateFile, env, exec, export, html2Dom included), each configured to succeed or to fail — every pair of fields, then random subsets — the operations that ran must be the fields present in the DOCUMENTED order (a literal copy of the field list at the pinned commit, not reflection on the type under test) up to the first failing one; 'hist' cases (HISTORY): one ActionSpec value executed 2..4 times, each time by a fresh executor with its own data, listener and ext registrations (a function name may trace in one run, fail in the next, be absent in a third): every run must equal the reference for THAT run. Each case is executed twice: built as Go structs and decoded from generated YAML. Besides the model comparison every run is compared (direct predicate) with an independent Go reference interpreter (c12_ref.go: documented operation order, per-run ext registrations; a condition that is present must evaluate to a boolean — blank texts are no boolean —; rendering yields all of the text or none). Non-trivial: at least 2 actions and at least one operation (hist: at least 2 runs and an ext operation; allops: at least 2 fields; seq: at least 2 actions in sequence). Distinct = distinct canonical case JSON.",
+		Rule: "action trees whose nodes carry subsets of {set, template, log, ext trace, abort} (each op tagged with its node's unique name), a condition from {none, \"true\", \"false\", {{ .flagT }}, {{ .flagF }}, \"\" (present but blank)} (random trees also: other boolean spellings, constant texts that are no boolean, blank and white-space-only texts — a non-nil pointer to \"\" / `when: \"\"`, `when: \"  \"` — at any depth, a flag written by ANOTHER action's set, which is a missing-field error when that action has not run, and the text ANOTHER action's template operation stores) and distinct sibling orders (children listed in shuffled order). Template operations of random trees render a non-boolean text, a boolean, or PARSE AND FAIL WHILE EXECUTING after having produced output (field of a scalar, index of a missing key, undefined associated template, sprig's fail), or DO NOT PARSE at all (an opening `{{` that no `}}` follows, after any text — rendered actions and a stray `}}` included —, a block keyword on its own, an undefined function): the failing operation stops the run and the final data of the failed run are compared like any other. 'enum' cases: the scope root(16 op subsets of size<=2 x 6 conditions) x 0..2 children (6 op subsets of size<=1 x 6 conditions each) — sampled in the quick tier, exhaustive in the thorough tier; 'tree' cases: random trees, depth<=5, fan-out<=4 (thorough: depth 3 trees drawn from the full per-node alphabet in addition). 'seq' cases: 2..3 actions executed one after the other by ONE executor on one data document (every call is made): each call must equal the reference on the data the earlier calls — failed ones included — left behind; later actions have conditions and templates that read the path an earlier template operation wrote to (first the minimal sequences: every kind of template text x top level / two levels down, then random ones). 'mixed' cases: nodes carrying subsets of ALL operation kinds the program form knows (also call, define, forEach, loop) on the same node — every pair of kinds on one node, then random trees; 'allops' cases (no model): one action carrying a subset of all sixteen OpSpec fields (patch, import, templateFile, env, exec, export, html2Dom included), each configured to succeed or to fail — every pair of fields, then random subsets — the operations that ran must be the fields present in the DOCUMENTED order (a literal copy of the field list at the pinned commit, not reflection on the type under test) up to the first failing one; 'hist' cases (HISTORY): one ActionSpec value executed 2..4 times, each time by a fresh executor with its own data, listener and ext registrations (a function name may trace in one run, fail in the next, be absent in a third): every run must equal the reference for THAT run. EQUIVALENT ENTRY POINTS: each enum / tree / mixed case is executed three times — built as Go structs and passed to Execute by value, the same passed as a pointer (Execute(&spec)), decoded from generated YAML; hist runs alternate between the spec value and a pointer to it, seq sequences pass every other struct-built action as a pointer and execute an action that occurs twice in the sequence as ONE value (the same Go objects) twice. Besides the model comparison every run is compared (direct predicate) with an independent Go reference interpreter (c12_ref.go: documented operation order, per-run ext registrations; a condition that is present must evaluate to a boolean — blank texts are no boolean —; rendering yields all of the text or none). Non-trivial: at least 2 actions and at least one operation (hist: at least 2 runs and an ext operation; allops: at least 2 fields; seq: at least 2 actions in sequence). Distinct = distinct canonical case JSON.",
 		Assumptions: []string{
-			"template semantics owned by the model: literal text and {{ .a.b }} field chains of scalars only; strconv.ParseBool table; any other action makes the rendering fail in the model — of those the generators use only actions that fail in text/template on every data once the template is executed ({{ template \"nope\" }} with no associated template defined, sprig's {{ fail \"…\" }}, {{ index .k N }} of a key that no generated operation writes)",
+			"template semantics owned by the model: literal text and {{ .a.b }} field chains of scalars only; strconv.ParseBool table; any other action makes the rendering fail in the model — of those the generators use only actions that fail in text/template on every data once the template is executed ({{ template \"nope\" }} with no associated template defined, sprig's {{ fail \"…\" }}, {{ index .k N }} of a key that no generated operation writes) and texts that text/template rejects when it parses them, whatever else they hold (an opening `{{` that no `}}` follows; {{ end }}, {{ else }}, {{ if }}, {{ range }} on their own; {{ nosuchfunc }})",
 			"sibling order values are distinct and small (no overflow in the a.Order-b.Order comparator)",
 			"EvalBool calls are observed through a TemplateEngine wrapper that delegates to the library's own default engine",
 			"error identity: the returned error is compared with == against the errors passed to OnAfter; error texts are not compared (except the rendered abort message)",
@@ -127,13 +127,18 @@ var c12BlankConds = []string{"", "", " ", "  ", "\t", " \n "}
 // there, an associated template nobody defined, sprig's fail.  The operation fails (and stops the run); what it
 // leaves at its path is part of the final data of the failed run.
 func c12TemplateText(r *rand.Rand, name string) string {
-	switch x := r.Intn(20); {
+	switch x := r.Intn(24); {
 	case x < 9:
 		return "{{ .flagT }}-" + name
 	case x < 12:
 		return pick(r, []string{"{{ .flagT }}", "{{ .flagF }}", "true", " {{ .flagT }} "})
 	case x < 14:
 		return pick(r, []string{"{{ .nokey }}", "{{ .keep.x }}{{ .keep.y }}", name})
+	case x >= 20:
+		// a text that DOES NOT PARSE: an opening `{{` that no `}}` follows (wherever it sits), a block keyword on
+		// its own, a function nobody defined.  No template, so nothing is rendered: the operation fails.
+		pre := pick(r, []string{"P-" + name + "-", "{{ .flagT }}", "true", "", "}} ", "{{ .keep.y }}:", " "})
+		return pre + pick(r, c12NoParseTails)
 	}
 	pre := pick(r, []string{"P-" + name + "-", "{{ .flagT }}", "true", "1", "{{ .keep.y }}:", " "})
 	bad := pick(r, []string{"{{ .keep.y.z }}", "{{ .keep.x.q }}", "{{ .flagT.on }}", "{{ index .nokey 0 }}", "{{ index .keep.missing 1 }}",
@@ -141,6 +146,10 @@ func c12TemplateText(r *rand.Rand, name string) string {
 	post := pick(r, []string{"", "", "-tail", "{{ .flagF }}"})
 	return pre + bad + post
 }
+
+// c12NoParseTails: what makes a text unparsable, to be put after any text (nothing that follows closes the action)
+var c12NoParseTails = []string{"{{ .flagT", "{{", "{{ .flagT }", "{{ .keep.x }-tail", "{{ .flagT }}{{", "{{ end }}", "{{ if }}-tail",
+	"{{ nosuchfunc }}{{ .flagF }}", "{{ else }}", "{{ range }}"}
 
 // c12RandTree: others = names of actions that carry a set operation; tpls (may be nil: template operations keep
 // their standard text) = names of actions that carry a template operation, both in generation order.
@@ -336,10 +345,20 @@ func c12Eval(c *Ctx, kind string, raw []byte) {
 	if !c.searchMode {
 		model = c.Model("exec", map[string]any{"data": p.Data, "root": p.Root, "fuel": c12Fuel})
 	}
+	c12ForEachOp(&p.Root, func(o *c12Op) {
+		if o.K == "template" && c12FailsAtExecution(o.Tmpl) {
+			c.Dist("template-failing-at-execution")
+		}
+		if o.K == "template" && c12DoesNotParse(o.Tmpl) {
+			c.Dist("template-that-does-not-parse")
+		}
+	})
 	ref := refExec(p.Data, &p.Root, refDefaultFns)
-	for _, variant := range []string{"struct", "yaml"} {
+	// EQUIVALENT ENTRY POINTS: the action built as Go structs and passed by value, the same passed as a POINTER
+	// (Execute(&spec): *ActionSpec is an Action as well), and the action decoded from generated YAML
+	for _, variant := range []string{"struct", "struct,pointer", "yaml"} {
 		var spec pipeline.ActionSpec
-		if variant == "struct" {
+		if variant != "yaml" {
 			spec = p.Root.spec()
 		} else {
 			s, txt, err := p.Root.specViaYAML()
@@ -348,7 +367,12 @@ func c12Eval(c *Ctx, kind string, raw []byte) {
 			}
 			spec = s
 		}
-		run := c12Exec(p.Data, []pipeline.Action{spec}, true)
+		var act pipeline.Action = spec
+		if variant == "struct,pointer" {
+			act = &spec
+		}
+		// (data snapshots at every before/after event are what costs most: taken for the other two variants)
+		run := c12Exec(p.Data, []pipeline.Action{act}, variant != "struct,pointer")
 		if strings.HasPrefix(run.text, "runaway") {
 			if c.searchMode {
 				continue // a neighbour produced by the shrinker (e.g. a loop without its counter): outside the domain
